@@ -42,7 +42,7 @@ CHECKS = {
             "Sources returning (0, nil) are not injected (io.Reader discourages them and the property does not speak about them).",
             SIM + "short-read fault injection at the simulated source; differential oracle against one-piece I/O"),
     "C07": ("exploration",
-            "Every block task of the real Writer/Reader runs under the simulator's scheduler (6 policies incl. PCT-style priorities and starvation); faults: task failure at a named protocol step, sink/source errors (transient, permanent, torn), truncation, bit flips so that a task fails after publishing. The trace is checked online against the hand-off reference automaton (exclusive, in-order acquisition, I/O only by the holder, nothing after observing cancel), deadlock detection is exact (no runnable task left), a failed task must surface as an error of the enclosing call, and no call may return while one of its block tasks is still running (the WaitGroup of the tasks is itself a seam: Add/Done/Wait are scheduled in code order).",
+            "Every block task of the real Writer/Reader runs under the simulator's scheduler (6 policies incl. PCT-style priorities and starvation); faults: task failure at a named protocol step, sink/source errors (transient, permanent, torn), truncation, bit flips so that a task fails after publishing. The trace is checked online against the hand-off reference automaton (exclusive, in-order acquisition, I/O only by the holder, nothing after observing cancel, no acquisition by a task that loaded the counter after a failed task had posted the cancel and completed), deadlock detection is exact (no runnable task left), a failed task must surface as an error of the enclosing call, and no call may return while one of its block tasks is still running (the WaitGroup of the tasks is itself a seam: Add/Done/Wait are scheduled in code order).",
             "Trusts the placement of the simhook points in v2/io/CompressedStream.go (not for the join: that is the code's own WaitGroup) and the automaton in harness/model/handoff.go. Sampling, not proof.",
             SIM + "fault injection + refinement monitor (hand-off automaton) + exact deadlock detection"),
     "C08": ("fault_enumeration",
@@ -66,7 +66,7 @@ CHECKS = {
             "No concurrency in this layer; short reads at this layer are C06's business.",
             "model-based operation programs from the simulator's choice tape against a bit-vector reference model (no schedule dimension)"),
     "C17": ("exploration",
-            "Tape-generated call histories on one Writer (Write of any length incl. 0 and block-aligned sizes, Close at any point and repeated, GetWritten) and on one Reader over the produced stream (Read of any length incl. 0, Close repeated, GetRead; the source delivers whole or short reads and the input bitstream buffer is drawn from 1 KiB to the default, so counters are observed across buffer refills), jobs 1-4 under the scheduler, optionally one transient sink failure during Close; every return value is compared with a small lifecycle machine (open / close-failed / closed; bytes accepted; cursor) as the call returns.",
+            "Tape-generated call histories on one Writer (Write of any length incl. 0 and block-aligned sizes, Close at any point and repeated, GetWritten) and on one Reader over the produced stream (Read of any length incl. 0, Close repeated, GetRead; the source delivers whole or short reads and the input bitstream buffer is drawn from 1 KiB to the default, so counters are observed across buffer refills), jobs 1-4 under the scheduler, a third of the headed streams with an advisory size hint at the values where the header's size field changes width, optionally one transient sink failure during Close; every return value is compared with a small lifecycle machine (open / close-failed / closed; bytes accepted; cursor) as the call returns.",
             "After a failed Close only Close/GetWritten are issued (the state is not specified by the property); a failure that hit a block task leaves the writer permanently failed, which is C08's business.",
             SIM + "random API call histories against a lifecycle reference machine"),
     "C18": ("exploration",
